@@ -342,8 +342,38 @@ def damage(rng, text):
         n = len(t)
         special = [i for i, ch in enumerate(t) if ch in '()"|;:!. -0123456789']
         pos = rng.choice(special) if special and rng.random() < 0.7 else rng.randint(0, n - 1)
-        k = rng.choice(['truncate', 'flip', 'delete', 'dup', 'insert'])
+        k = rng.choice(['truncate', 'flip', 'delete', 'dup', 'insert', 'sexpr-dup', 'sexpr-replace', 'token-swap', 'line-move'])
         kinds.append(k)
+        if k in ('sexpr-dup', 'sexpr-replace'):
+            # structural damage that keeps the text well-formed: an s-expression is duplicated in place (repeated argument,
+            # duplicate let binder, command given twice) or overwritten by a copy of another one (ill-sorted term, wrong arity,
+            # command in the wrong place)
+            spans = sexpr_spans(t)
+            if len(spans) >= 2:
+                a, b = rng.choice(spans)
+                if k == 'sexpr-dup':
+                    t = t[:b] + ' ' + t[a:b] + t[b:]
+                else:
+                    c, e = rng.choice(spans)
+                    if not (c <= a < e or a <= c < b):
+                        t = t[:a] + t[c:e] + t[b:]
+            continue
+        if k == 'token-swap':
+            # a symbol is replaced by another symbol of the same script (unknown / ill-sorted / shadowing names, other option or command)
+            toks = [(m.start(), m.end()) for m in re.finditer(r"[A-Za-z_.:][A-Za-z0-9_.\-]*", t)]
+            if len(toks) >= 2:
+                (a, b), (c, e) = rng.choice(toks), rng.choice(toks)
+                t = t[:a] + t[c:e] + t[b:]
+            continue
+        if k == 'line-move':
+            # command order: one line is moved (or copied) somewhere else
+            ls = t.split('\n')
+            if len(ls) >= 3:
+                i, j = rng.randrange(len(ls)), rng.randrange(len(ls))
+                ln = ls[i] if rng.random() < 0.5 else ls.pop(i)
+                ls.insert(min(j, len(ls)), ln)
+                t = '\n'.join(ls)
+            continue
         if k == 'truncate':
             t = t[:pos]
         elif k == 'flip':
@@ -356,6 +386,34 @@ def damage(rng, text):
         else:
             t = t[:pos] + rng.choice(['(', ')', '"', '|', '(assert', '(check-sat)', ' 99999999999999999999999 ', '(/ 1 0)', '(push 100000)', '(pop 7)', '(get-model)', '(* x x)', '(set-logic QF_BV)', '(exit)']) + t[pos:]
     return t, kinds
+
+
+def sexpr_spans(text):
+    """(start, end) of every balanced parenthesised expression, skipping comments, string literals and quoted symbols."""
+    spans, stack, st, i, n = [], [], None, 0, len(text)
+    while i < n:
+        ch = text[i]
+        if st == 'c':
+            if ch == '\n':
+                st = None
+        elif st == 's':
+            if ch == '"':
+                st = None
+        elif st == 'q':
+            if ch == '|':
+                st = None
+        elif ch == ';':
+            st = 'c'
+        elif ch == '"':
+            st = 's'
+        elif ch == '|':
+            st = 'q'
+        elif ch == '(':
+            stack.append(i)
+        elif ch == ')' and stack:
+            spans.append((stack.pop(), i + 1))
+        i += 1
+    return spans
 
 
 def expected_problem(text):
